@@ -164,3 +164,32 @@ def Store.onDiskSize (s : Store) : Nat :=
   s.openEnd - first
 
 end RaftLog
+
+namespace RaftLog
+
+/-- The steps of a history (what a script line can do to the system). -/
+inductive Step
+  | call (op : Op)
+  | flush (cb : Option Nat)
+  | worker (out : Outcome)
+  | workerIdle
+  | drain
+  | drop
+  | openWith (cfg : Cfg)
+deriving Repr, DecidableEq, Inhabited
+
+def Sys.step (y : Sys) : Step → Sys
+  | .call op => (y.call op).2.1
+  | .flush cb => (y.flush cb).2.1
+  | .worker out => (y.workerStep out).1
+  | .workerIdle => y.workerIdle.1
+  | .drain => y.drain
+  | .drop => y.dropStore.1
+  | .openWith cfg => ({ y with cfg := cfg }).open.2.1
+
+def Sys.run (y : Sys) (steps : List Step) : Sys := steps.foldl Sys.step y
+
+/-- A store freshly opened on an empty directory. -/
+def Sys.fresh (cfg : Cfg) : Sys := ({ cfg := cfg } : Sys).open.2.1
+
+end RaftLog
